@@ -170,10 +170,14 @@ CHECKS["C14"] = dict(
          "(with/without national check), all 39 German methods, all national algorithms, BIC and generation: every "
          "attribute/container write targets an object allocated in the call (pyvc write log). Where a shared write "
          "exists, the functional contract is re-proved with every read of that field arbitrary (constrained by what "
-         "some call can write there); a failure is replayed natively under a forced two-thread schedule.",
+         "some call can write there); a failure is replayed natively under a forced two-thread schedule. Where neither "
+         "tier decides (shared iterators, lists mutated in place, interference proof cut off) a BOUNDED native sweep parks "
+         "one call at every bytecode instruction of its run inside the library while another call runs to completion "
+         "(forked per schedule) and compares both answers with the answers alone.",
     design_ref="DESIGN.md C14",
     note="The family has no schedule quantifier: the non-interference meta-theorem, thread safety of read-only use of "
-         "dependencies and the per-thread semantics of threading.local are assumed. No enumeration of interleavings.",
+         "dependencies and the per-thread semantics of threading.local are assumed. The schedule sweep is a bounded "
+         "confirmation step (two threads, one preemption), not an enumeration of interleavings.",
     technique="contract-based deductive verification: write-frame obligations + rely/guarantee re-proof (pyvc, z3); "
               "forced-schedule native replay")
 CHECKS["C15"] = dict(
